@@ -1,7 +1,9 @@
 --------------------------- MODULE VMAliasCases ---------------------------
 (* Case space of C06: every program of at most MaxLen instructions over the  *)
 (* aliasing-relevant alphabet (instructions that copy, move, cut or join     *)
-(* stack items, plus small pushes) on argument lists of short strings.       *)
+(* stack items, plus small pushes) in four contexts: argument lists of short  *)
+(* strings with 0..3 initial state-data items (FROMALTSTACK / TOALTSTACK then  *)
+(* pop, replace and extend the caller's state).                              *)
 (* TLC enumerates the space; the cases are then evaluated by VMRun.tla.      *)
 EXTENDS Integers, Sequences, TLC, Json
 
@@ -30,9 +32,15 @@ Sym == << <<118>>,        \* DUP
           <<1, 122>> >>   \* push "z"
 K == Len(Sym)
 
-ArgLists == << << <<97, 98>>, <<99, 100, 101>> >>,                 \* "ab" "cde"
-               << <<97, 98, 99, 100>>, <<1>>, <<2>> >>,              \* "abcd" 1 2   (offset / size operands)
-               << <<97>>, <<>>, <<98, 99, 100>> >> >>                \* "a" "" "bcd"
+(* contexts: argument list and initial state data (0..3 items on the alt stack before the program runs) *)
+Contexts == << [args  |-> << <<97, 98>>, <<99, 100, 101>> >>,                 \* "ab" "cde"
+                state |-> <<>>],
+               [args  |-> << <<97, 98, 99, 100>>, <<1>>, <<2>> >>,            \* "abcd" 1 2  (offset / size operands)
+                state |-> << <<83, 116>> >>],                                  \* "St"
+               [args  |-> << <<97>>, <<>>, <<98, 99, 100>> >>,                \* "a" "" "bcd"
+                state |-> << <<111, 119, 110>>, <<111, 108, 100>> >>],         \* "own" "old"
+               [args  |-> << <<97, 98>> >>,                                    \* "ab"
+                state |-> << <<5>>, <<>>, <<120, 121>> >>] >>                  \* 5 "" "xy"
 
 RECURSIVE Flat(_, _)
 Flat(p, k) == IF k > Len(p) THEN <<>> ELSE Sym[p[k]] \o Flat(p, k + 1)
@@ -41,9 +49,9 @@ SumSeq(p, k) == IF k > Len(p) THEN 0 ELSE p[k] + SumSeq(p, k + 1)
 
 VARIABLES p, a
 Init == /\ p \in UNION {[1..n -> 1..K] : n \in 1..MaxLen}
-        /\ a \in 1..Len(ArgLists)
+        /\ a \in 1..Len(Contexts)
         /\ (SumSeq(p, 1) + a) % NShards = Shard
-        /\ PrintT("EXPORT " \o ToJson([prog |-> Flat(p, 1), args |-> ArgLists[a], state |-> <<>>,
+        /\ PrintT("EXPORT " \o ToJson([prog |-> Flat(p, 1), args |-> Contexts[a].args, state |-> Contexts[a].state,
                                        limit |-> 10000, fam |-> "enum"]))
 Next == UNCHANGED <<p, a>>
 =============================================================================
